@@ -62,6 +62,7 @@ class Interp:
         self.in_progress = set()
         self.violations = []          # (rule, fn key, instance, site, detail)
         self.events = defaultdict(int)
+        self.advance_stmts = set()
         self.advance = self._find_advance()
         self.locate = self._find_locate()
         self.n_steps = 0
@@ -95,6 +96,7 @@ class Interp:
                         fields = set(f for f in fields if f[0] in ('buf_pos', 'search_pos'))
                         if len(fields) >= 2:
                             out.append(b)
+                            self.advance_stmts.add(id(s))
         return set(x.path for x in out)
 
     def _find_locate(self):
@@ -226,6 +228,8 @@ class Interp:
                     v = store.get(v[1], TOP)
                 elif isinstance(v, tuple) and v and v[0] == 'rval':
                     v = v[1]
+                elif isinstance(v, tuple) and v and v[0] in ('readerbuf', 'readerbuf-part'):
+                    pass
                 else:
                     v = v if (isinstance(v, tuple) and v and v[0] in ('e', 'b', 'err', 'cnt', 'int', 'tuple')) else TOP
             elif k == 'field':
@@ -283,7 +287,7 @@ class Interp:
             return ('rset',) if not path else ('rsetp', path)
         if not pl.proj:
             return ('rlocal', pl.local)
-        if all(p['k'] == 'deref' for p in pl.proj) and isinstance(v, tuple) and v and v[0] in ('rlocal', 'rval'):
+        if all(p['k'] == 'deref' for p in pl.proj) and isinstance(v, tuple) and v and v[0] in ('rlocal', 'rval', 'readerbuf', 'readerbuf-part'):
             return v
         # reference to a projection of a local value: keep the value itself when it is an enum payload
         val = self.read_place(body, pl, store, heap)
@@ -343,6 +347,9 @@ class Interp:
                         heap['setc'] = 0
                         heap['dirty'] = True
                     else:
+                        if heap.get('setc') == 'old':
+                            self.violate_at('FSM-S4', body, stmt.line if stmt is not None else None, 'push-before-old-batch-cleared',
+                                            'the record count of the set is increased before the previous batch was cleared', heap)
                         heap['setc'] = 1
                         heap['dirty'] = True
                         heap['pushed'] = True
@@ -473,6 +480,14 @@ class Interp:
         b = body.blocks[blk]
         for s in b.stmts:
             if s.k == 'assign':
+                if id(s) in self.advance_stmts:
+                    # the advance over a record happens here (robust to inlining of the helper)
+                    self.events['advance'] += 1
+                    if heap.get('complete') is not True:
+                        self.violate_at('FSM-P', body, s.line, 'advance-without-located-record',
+                                        'the reader advances (file position += record extent) although no located record is pending [state=%s%s]' % (
+                                            heap['state'], ', search incomplete' if heap.get('inc') == 'Some' else ''), heap)
+                    heap['complete'] = False
                 v = self.eval_rvalue(body, s, store, heap)
                 self.write_place(body, s.place, v, store, heap, s)
         t = b.term
@@ -632,6 +647,16 @@ class Interp:
             else:
                 finish(TOP, heap)
             return outs
+        # ---------- the reader buffer as a value (for "the bytes copied into a set are the whole buffer")
+        if c.is_('buffer_redux::BufReader::buffer') and args and isinstance(args[0], tuple) and args[0][:1] == ('rselfp',):
+            finish(('readerbuf',), heap)
+            return outs
+        if path in ('std::ops::Index::index', 'std::ops::IndexMut::index_mut') and args and args[0] in (('readerbuf',), ('readerbuf-part',)):
+            finish(('readerbuf-part',), heap)
+            return outs
+        if path in ('std::ops::Deref::deref', 'std::convert::AsRef::as_ref', 'std::iter::IntoIterator::into_iter', 'core::slice::iter') and args and args[0] in (('readerbuf',), ('readerbuf-part',)):
+            finish(args[0], heap)
+            return outs
         # ---------- record-set events
         if args and isinstance(args[0], tuple) and args[0] and args[0][0] == 'rsetp':
             fpath = args[0][1]
@@ -642,6 +667,9 @@ class Interp:
                 finish(UNIT, heap)
                 return outs
             if c.name in ('push',) and 'BufferPosition' in fty:
+                if heap.get('setc') == 'old':
+                    self.violate('FSM-S4', body, t, 'push-before-old-batch-cleared',
+                                 'a record is pushed into the set before the offsets of the previous batch were cleared (the set would contain old records too)', heap)
                 heap['setc'] = 1
                 heap['dirty'] = True
                 heap['pushed'] = True
@@ -658,21 +686,24 @@ class Interp:
                 finish(('cnt', heap['setc']), heap)
                 return outs
             if c.name in ('extend', 'extend_from_slice') and fty.replace(' ', '') == 'std::vec::Vec<u8>':
-                heap['dirty'] = False
+                src = args[1] if len(args) > 1 else TOP
+                if src == ('readerbuf',) and heap.get('bufclr'):
+                    heap['dirty'] = False
+                elif src == ('readerbuf-part',):
+                    self.violate('FSM-S4', body, t, 'partial-buffer-copied',
+                                 'only a part of the reader buffer is copied into the set although the offsets refer to the whole buffer', heap)
+                elif src == ('readerbuf',):
+                    self.violate('FSM-S4', body, t, 'bytes-appended-without-clear',
+                                 'the reader buffer is appended to the bytes of the previous batch (offsets would be shifted)', heap)
+                heap['bufclr'] = False
                 finish(UNIT, heap)
                 return outs
             if c.name == 'clear' and fty.replace(' ', '') == 'std::vec::Vec<u8>':
+                heap['bufclr'] = True
                 finish(UNIT, heap)
                 return outs
         # ---------- crate-internal callee on &mut self / &self
         if cb is not None and args and args[0] == ('rself',) and cb.key.startswith(self.reader + '::'):
-            if cb.path in self.advance:
-                self.events['advance-calls'] += 1
-                if heap.get('complete') is not True:
-                    self.violate('FSM-P', body, t, 'advance-without-located-record',
-                                 'the reader advances (file position += record extent) although no located record is pending [state=%s%s]' % (
-                                     heap['state'], ', search incomplete' if heap.get('inc') == 'Some' else ''), heap)
-                heap['complete'] = False
             if cb.path in self.locate:
                 self.events['locate-calls'] += 1
                 if heap.get('complete') is True:
@@ -686,8 +717,13 @@ class Interp:
                     hp['complete'] = True
                 finish(rv, hp)
             return outs
-        if cb is not None and cb.arg_count >= 1 and args and isinstance(args[0], tuple) and args[0] and args[0][0] in ('rselfp', 'rsetp', 'rset'):
-            # helper on a sub-object (BufferPosition::reset/update, ...): no tracked effect
+        if cb is not None and cb.arg_count >= 1 and args and isinstance(args[0], tuple) and args[0] and args[0][0] in ('rset', 'rsetp'):
+            # helper on the record set (e.g. an extracted "copy the buffer" method): interpret it
+            for (rv, hp) in self.run_fn(cb, heap, args + [TOP] * (cb.arg_count - len(args))):
+                finish(rv, hp)
+            return outs
+        if cb is not None and cb.arg_count >= 1 and args and isinstance(args[0], tuple) and args[0] and args[0][0] in ('rselfp',):
+            # helper on a sub-object of the reader (BufferPosition::reset/update, ...): no tracked effect
             for v in self.havoc(dest_ty):
                 finish(v, heap.copy())
             return outs
@@ -729,6 +765,9 @@ class Interp:
         for body, parent, item in self.call_ctx:
             out.append('%s: bb%s' % (body.key, '>'.join(str(x) for x in self.path_of(parent, item))))
         return out
+
+    def violate_at(self, rule, body, line, inst, detail, heap):
+        self.violations.append((rule, body.key, inst, '%s:%s (%s)' % (body.file, line, body.key), detail + ' || trace: ' + ' | '.join(self.trace())))
 
     def violate(self, rule, body, term, inst, detail, heap):
         self.violations.append((rule, body.key, inst, '%s:%s (%s)' % (body.file, term.line, body.key), detail + ' || trace: ' + ' | '.join(self.trace())))
